@@ -118,7 +118,9 @@ func (s *MemStore) Delete(key []byte) {
 }
 
 func (s *MemStore) GetStoreType() storetypes.StoreType { return storetypes.StoreTypeMemory }
-func (s *MemStore) CacheWrap() storetypes.CacheWrap   { panic("models.MemStore: CacheWrap not supported") }
+func (s *MemStore) CacheWrap() storetypes.CacheWrap {
+	panic("models.MemStore: CacheWrap not supported")
+}
 func (s *MemStore) CacheWrapWithTrace(w io.Writer, tc storetypes.TraceContext) storetypes.CacheWrap {
 	panic("models.MemStore: CacheWrapWithTrace not supported")
 }
@@ -301,7 +303,9 @@ func (m *MultiStore) store(name string) *MemStore {
 func (m *MultiStore) Store(name string) *MemStore { return m.store(name) }
 
 func (m *MultiStore) GetStoreType() storetypes.StoreType { return storetypes.StoreTypeMulti }
-func (m *MultiStore) CacheWrap() storetypes.CacheWrap   { return m.CacheMultiStore().(storetypes.CacheWrap) }
+func (m *MultiStore) CacheWrap() storetypes.CacheWrap {
+	return m.CacheMultiStore().(storetypes.CacheWrap)
+}
 func (m *MultiStore) CacheWrapWithTrace(w io.Writer, tc storetypes.TraceContext) storetypes.CacheWrap {
 	return m.CacheWrap()
 }
@@ -327,10 +331,10 @@ func (m *MultiStore) GetKVStore(key storetypes.StoreKey) storetypes.KVStore {
 	return m.store(key.Name())
 }
 
-func (m *MultiStore) TracingEnabled() bool                                     { return false }
-func (m *MultiStore) SetTracer(w io.Writer) storetypes.MultiStore              { return m }
+func (m *MultiStore) TracingEnabled() bool                                            { return false }
+func (m *MultiStore) SetTracer(w io.Writer) storetypes.MultiStore                     { return m }
 func (m *MultiStore) SetTracingContext(storetypes.TraceContext) storetypes.MultiStore { return m }
-func (m *MultiStore) LatestVersion() int64                                     { return 0 }
+func (m *MultiStore) LatestVersion() int64                                            { return 0 }
 
 // Write copies every store of this cache layer into its parent.
 func (m *MultiStore) Write() {
